@@ -272,13 +272,20 @@ def _emd_stub(ctx):
     return EMD
 
 
-@ob("C05.emd_units", cases=[dict(shape=(2, 2)), dict(shape=(2, 3))], mods=["darsia.measure.emd"], funcs=FUNCS, samples=(1, 2),
+@ob("C05.emd_units", cases=[dict(shape=s, layout=l) for s in ((2, 2), (2, 3)) for l in ("C", "F", "T-view", "mixed")], mods=["darsia.measure.emd"], funcs=FUNCS, samples=(1, 2),
     stubs={"cv2.EMD": _emd_stub}, skip=("_compatibility_check",), budget={"timeout_ms": 20000}, tol=1e-5,
     cite="the OpenCV earth-mover back-end returns mass times Euclidean distance in physical units",
     note="EMD.__call__ with cv2.EMD replaced by a recording stub: signatures carry normalised mass and physical pixel positions (col*dx, row*dy); result = cv2 work * mass sum * cell volume")
-def c05_emd_units(ctx, shape):
+def c05_emd_units(ctx, shape, layout="C"):
     a = ctx.array("a", shape, pos=True, sample=(0.1, 1.0))
     b = ctx.array("b", shape, pos=True, sample=(0.1, 1.0))
+    # memory layout of the pixel arrays is not part of an image's meaning: Fortran-ordered arrays, transposed views, mixed pairs
+    if layout == "F":
+        a, b = np.asfortranarray(a), np.asfortranarray(b)
+    elif layout == "T-view":
+        a, b = np.ascontiguousarray(a.T).T, np.ascontiguousarray(b.T).T
+    elif layout == "mixed":
+        b = np.asfortranarray(b)
     d = ctx.reals("d", 2, pos=True, sample=(0.5, 3.0))
     ctx.emd_calls = []
     ctx.emd_ret = ctx.real("work", sample=(0.0, 2.0))
@@ -333,6 +340,9 @@ def c05_emd(ctx, shape, h):
     ctx.ensure("scaling", abs(darsia.EMD()(mk(3 * a), mk(3 * b)) - 3 * d12) <= 1e-4 * max(1.0, 3 * d12))
     ctx.ensure("first-moment bound", d12 >= first_moment_displacement(mk(a), mk(b)) - 1e-5)
     ctx.ensure("identical: zero", abs(darsia.EMD()(mk(a), mk(a.copy()))) <= 1e-6)
+    for name, (x, y) in {"F/F": (np.asfortranarray(a), np.asfortranarray(b)), "C/F": (a, np.asfortranarray(b)), "T-view": (np.ascontiguousarray(a.T).T, np.ascontiguousarray(b.T).T)}.items():
+        ctx.ensure(f"memory layout {name}: same distance as for C-ordered copies of the same arrays", abs(darsia.EMD()(mk(x), mk(y)) - d12) <= 1e-4 * max(1.0, d12))
+    ctx.ensure("an image and its Fortran-ordered copy are identical distributions", abs(darsia.EMD()(mk(a), mk(np.asfortranarray(a)))) <= 1e-6)
 
 
 @ob("C05.lemmas", kind="L", cases=[{}], samples=(0, 0), funcs=[],
